@@ -49,7 +49,7 @@ impl Stats {
     pub fn violation(&mut self, prop: &str, sig: &str, what: &str, case: u64, detail: Value) {
         // root-cause tag of the recorded fold-lore finding (mon::taint); empty outside honest histories
         let step = detail.get("step").and_then(|x| x.as_u64()).map(|x| x as usize);
-        let tagged = if sig.contains(crate::mon::taint::SUFFIX) || sig.contains(crate::mon::taint::SUFFIX_CALL) || sig.contains(crate::mon::taint::SUFFIX_LAST) { sig.to_string() } else { format!("{sig}{}", crate::mon::taint::suffix(prop, step)) };
+        let tagged = if sig.contains(crate::mon::taint::SUFFIX) || sig.contains(crate::mon::taint::SUFFIX_CALL) || sig.contains(crate::mon::taint::SUFFIX_LAST) || sig.contains(crate::mon::taint::SUFFIX_LAST_SCRIPT) { sig.to_string() } else { format!("{sig}{}", crate::mon::taint::suffix(prop, step)) };
         let sig = tagged.as_str();
         // keep at most a handful per signature: the first witness is what matters
         let same = self.violations.iter().filter(|v| v.sig == sig).count();
